@@ -1457,6 +1457,43 @@ impl Registry {
             });
     }
 
+    /// Replaces every interface listed as a possible type of another interface
+    /// by the objects behind it, which thereby implement the outer interface
+    /// too.
+    pub(crate) fn flatten_nested_interfaces(&mut self) {
+        // every round resolves one level of nesting
+        for _ in 0..self.types.len() {
+            let mut nested = Vec::new();
+            for (outer, ty) in &self.types {
+                if let MetaType::Interface { possible_types, .. } = ty {
+                    for member in possible_types {
+                        if let Some(MetaType::Interface {
+                            possible_types: inner,
+                            ..
+                        }) = self.types.get(member)
+                        {
+                            nested.push((outer.clone(), member.clone(), inner.clone()));
+                        }
+                    }
+                }
+            }
+            if nested.is_empty() {
+                break;
+            }
+            for (outer, member, inner) in nested {
+                if let Some(MetaType::Interface { possible_types, .. }) =
+                    self.types.get_mut(&outer)
+                {
+                    possible_types.shift_remove(&member);
+                    possible_types.extend(inner.iter().filter(|ty| **ty != outer).cloned());
+                }
+                for ty in inner.iter().filter(|ty| **ty != outer) {
+                    self.add_implements(ty, &outer);
+                }
+            }
+        }
+    }
+
     pub fn add_keys(&mut self, ty: &str, keys: impl Into<String>) {
         let all_keys = match self.types.get_mut(ty) {
             Some(MetaType::Object { keys: all_keys, .. }) => all_keys,
